@@ -16,10 +16,7 @@ Theorem C09_roundtrip_fields :
     (forall kd, defs kd (from_instructions (to_instructions p)) = defs kd p) /\
     body (from_instructions (to_instructions p)) = body p /\
     to_instructions (from_instructions (to_instructions p)) = to_instructions p.
-Proof.
-  intros p Hp. split; [intros kd; now apply defs_roundtrip|].
-  split; [now apply body_roundtrip | now apply listing_roundtrip].
-Qed.
+Proof. exact roundtrip_fields. Qed.
 
 (** The rebuilt cache is the set of qubits [get_qubits] reports on the listing; so the rebuilt
     program equals the original field-wise (cache as a set) exactly when the original's cache is
@@ -28,10 +25,12 @@ Theorem C09_roundtrip_equal :
   forall p : program, WF p -> InvG p ->
     prog_equiv (from_instructions (to_instructions p)) p /\
     prog_eqb (from_instructions (to_instructions p)) p = true.
-Proof.
-  intros p Hp Hi. pose proof (roundtrip_equiv p Hp Hi) as He. split; [exact He|].
-  now apply prog_equiv_eqb.
-Qed.
+Proof. exact roundtrip_equal. Qed.
+
+(** Every built program has its cache in that state (repair 1fc8c68 rebuilds it when a
+    calibration is replaced), so every built program equals its rebuild. *)
+Theorem C09_built_cache_in_step : forall is : list instr, InvG (from_instructions is).
+Proof. exact InvG_from. Qed.
 
 (** The body keeps the order in which body instructions were added. *)
 Theorem C09_body_is_insertion_order :
@@ -43,13 +42,13 @@ Proof. exact body_from. Qed.
 Theorem C09_last_value :
   forall (is : list instr) (kd : kind) (k : N),
     lookup k (defs kd (from_instructions is)) = last_value k (sel kd is).
-Proof. intros is kd k. apply lookup_from. Qed.
+Proof. intros is kd k. exact (lookup_from kd k is). Qed.
 
 Theorem C09_keys_distinct :
   forall (is : list instr) (kd : kind),
     NoDup (keys (defs kd (from_instructions is))) /\
     keys (defs kd (from_instructions is)) = first_keys (sel kd is).
-Proof. intros is kd. split; [apply WF_from_instructions | apply keys_from]. Qed.
+Proof. exact keys_distinct_from. Qed.
 
 (** Normalisation (build, then list) is idempotent: listing a rebuilt program changes nothing. *)
 Theorem C09_norm_idempotent : forall is : list instr, norm (norm is) = norm is.
